@@ -98,7 +98,14 @@ dt_io_strpdt(
 	struct dt_dt_s res = {DT_UNK};
 	dt_strpdt_special_t now;
 
-	/* basic sanity checks, catch phrases first */
+	/* what the user's formats can read is what the user means, a month
+	 * called `Now' in the input locale isn't the catch phrase */
+	for (size_t i = 0; i < nfmt; i++) {
+		if (!dt_unk_p(res = dt_strpdt(str, fmt[i], NULL))) {
+			return dtz_forgetz(res, zone);
+		}
+	}
+	/* catch phrases then */
 	now = dt_io_strpdt_special(str);
 
 	if (now > STRPDT_UNK) {
@@ -131,12 +138,6 @@ dt_io_strpdt(
 		return res;
 	} else if (nfmt == 0) {
 		res = dt_strpdt(str, NULL, NULL);
-	} else {
-		for (size_t i = 0; i < nfmt; i++) {
-			if (!dt_unk_p(res = dt_strpdt(str, fmt[i], NULL))) {
-				break;
-			}
-		}
 	}
 	return dtz_forgetz(res, zone);
 }
